@@ -41,3 +41,29 @@ pub fn start(on_timeout: impl Fn(String, String, Vec<String>) + Send + 'static) 
         }
     });
 }
+
+/// Standard watchdog for a property run: if one guarded call does not return within LIMIT_S, the
+/// run ends at once with that case as its single violation (and the cap recorded).
+pub fn start_default(which: &'static str, level: &'static str, tier: &str, seed: u64, out: &str) {
+    let out = out.to_string();
+    let tier = tier.to_string();
+    start(move |sig, text, args| {
+        let r = crate::report::Report::new(which, &tier, seed);
+        r.violation(sig, text, args, crate::json::J::Null);
+        r.cap("stopped by the watchdog: one call into the subject did not return".into());
+        r.finish(
+            level,
+            crate::json::J::obj()
+                .set("states", 1u64)
+                .set("transitions", 1u64)
+                .set("traces_validated_against_impl", 0u64)
+                .set("evaluations", 2u64)
+                .set("distinct_nontrivial", 2u64)
+                .set("rule", "run cut short by the watchdog; see the violation")
+                .set("samples", vec!["(see violation)"]),
+            vec![],
+            &out,
+        );
+        std::process::exit(0);
+    });
+}
